@@ -225,10 +225,13 @@ RegisteredAtAddPart(c, p) == IF HasAddPart(c, p)
                                THEN LET a == LastAddPart(c, p) IN
                                     {a.registered[i] : i \in 1..Len(a.registered)}
                                ELSE ShardsOfC(c)
+\* the partition was (last) announced as already dropped upstream while the downstream still has it (dropped while CDC was
+\* down): like a collection dropped at start, its drop is generated by CDC and not read from the shards
+PartDroppedAtStart(c, p) == HasAddPart(c, p) /\ "dropped" \in DOMAIN LastAddPart(c, p) /\ LastAddPart(c, p).dropped
 AfterAllShards(ev, strict) ==
     LET c == CollByName(ev.cname) IN
     /\ (IsDropC(ev) => DroppedAtStart(c) \/ \A s \in ShardsOfC(c) : HasReadDrop(s, "", ev.nreads))
-    /\ (IsDropP(ev) => LET need == IF ~strict /\ KFOn("C04_partition_barrier_size") THEN RegisteredAtAddPart(c, ev.pname) ELSE ShardsOfC(c) IN
+    /\ (IsDropP(ev) /\ ~PartDroppedAtStart(c, ev.pname) => LET need == IF ~strict /\ KFOn("C04_partition_barrier_size") THEN RegisteredAtAddPart(c, ev.pname) ELSE ShardsOfC(c) IN
                         \A s \in need : HasReadDrop(s, ev.pname, ev.nreads))
 \* nothing that a shard read after its own drop message of an object is emitted for that object
 DropPackNo(s, obj) == IF HasReadDrop(s, obj, Len(reads))
@@ -338,7 +341,8 @@ TStep ==
           outs' = outs \o [i \in 1..Len(e.out) |-> e.out[i] @@ [cs |-> csOf(i)]]
        /\ evs' = evs \o [i \in 1..Len(e.evs) |-> e.evs[i] @@ [at |-> Len(outs), nreads |-> Len(reads), step |-> l]]
        /\ stops' = IF e.op = "stop" THEN Append(stops, [c |-> e.c, step |-> l]) ELSE stops
-       /\ addparts' = IF e.op = "addpart" /\ ~e.err THEN Append(addparts, [c |-> e.c, p |-> e.p, registered |-> e.registered, nreads |-> Len(reads), step |-> l]) ELSE addparts
+       /\ addparts' = IF e.op = "addpart" /\ ~e.err THEN Append(addparts, [c |-> e.c, p |-> e.p, registered |-> e.registered, nreads |-> Len(reads), step |-> l,
+                                                                                 dropped |-> ("dropped" \in DOMAIN e /\ e.dropped)]) ELSE addparts
        /\ regd' = FoldRegs(e.regs, 1, regd)
        /\ starts' = IF e.op = "start" THEN Append(starts, [c |-> e.c, step |-> l, nseek |-> IF "seeks" \in DOMAIN e THEN Len(e.seeks) ELSE 0,
                                                                 seeks |-> IF "seeks" \in DOMAIN e THEN e.seeks ELSE <<>>]) ELSE starts
